@@ -50,13 +50,13 @@ func tClass(cf bgvu.Conf) string {
 
 func configs(tier string) []conf {
 	t30 := bgvu.PlainModulus(4, 30)
-	t60 := bgvu.PlainModulus(4, 60)
+	t60 := bgvu.PlainModulusAt(4, 60, 7, 10) // 60 bits, below Q[0]/2 for the 61-bit chain at 0.9*2^61
 	base := []bgvu.Conf{
 		{Name: "t97-q30x4-p30x1", LogN: 4, QBits: 30, NQ: 4, PBits: 30, NP: 1, T: 97},
 		{Name: "t17-q30x4-nop", LogN: 4, QBits: 30, NQ: 4, NP: 0, T: 17},
 		{Name: "t65537-q55x4-p55x2", LogN: 4, QBits: 55, NQ: 4, PBits: 55, NP: 2, T: 65537},
 		{Name: "t30b-q55x5-p55x2", LogN: 4, QBits: 55, NQ: 5, PBits: 55, NP: 2, T: t30},
-		{Name: "t60b-q61x4-p61x1", LogN: 4, QBits: 60, NQ: 4, PBits: 60, NP: 1, T: t60, QAbove: true},
+		{Name: "t60b-q61x4-p61x1", LogN: 4, NQ: 4, NP: 1, T: t60, Q: bgvu.Q61(4, 4, 0), P: bgvu.Q61(4, 1, 4)},
 	}
 	if tier == "thorough" {
 		base = append(base,
